@@ -71,6 +71,10 @@
 (*    InvChildLive   a derived reference stays usable while its parent's   *)
 (*                   lending call is active                                *)
 (*    InvNoResidue   nothing is left when no guard is alive                *)
+(*    InvNoInflight  no use is still in progress (on a script thread) when  *)
+(*                   its lending call is over: with "no_wait" in Defects   *)
+(*                   HExit does not wait for it (as coded: the thread has  *)
+(*                   upgraded the weak handle and keeps using the object)  *)
 (* `blame` records, per behaviour, which of them the as-is mechanism broke *)
 (* (a prediction for the replay, never part of the expectation).           *)
 (*                                                                         *)
@@ -99,7 +103,8 @@ CONSTANTS MaxGuards,   \* guards created in one behaviour
           Places,      \* stash places in play, subset of AllPlaces
           Derive,      \* BOOLEAN: derived (child) references in play
           Pair,        \* BOOLEAN: the same-handle-twice call in play
-          Defects,     \* {} or {"shared_stack"}
+          Threads,     \* BOOLEAN: a use in flight on a script thread in play
+          Defects,     \* subset of {"shared_stack", "no_wait"}
           EmitCases    \* BOOLEAN: print one REPLAY line per behaviour
 
 AllPlaces == <<"global", "closure", "list", "box", "hash", "cont", "host">>
@@ -119,19 +124,21 @@ VARIABLES
   child,    \* [par, kind, held, eng] or NoChild
   copied,   \* [v, eng] or NoCopy
   acts,
+  parked,   \* NoPark, or the handle a script THREAD is using right now (it sits inside a host method)
   pend,     \* 0, or what the pending observation step follows (-1 an action, g > 0 the entry of guard g)
   \* ---- nursery layer
   mem, weak, ibind, nd,
   \* ---- ghosts / output
   blame, feat, hist, done
 
-vars == <<G, ng, cs, oval, entered, stash, child, copied, acts, pend, mem, weak, ibind, nd,
+vars == <<G, ng, cs, oval, entered, stash, child, copied, acts, parked, pend, mem, weak, ibind, nd,
           blame, feat, hist, done>>
 
 NoGuard == [st |-> "none", eng |-> 0, refs |-> << >>, frame |-> 0]
 NoStash == [h |-> [g |-> -1, k |-> 0], eng |-> 0, m |-> "none"]
 NoChild == [par |-> [g |-> -1, k |-> 0], kind |-> "none", held |-> FALSE, eng |-> 0, id |-> 0]
 NoCopy == [v |-> 0, eng |-> 0]
+NoPark == [h |-> [g |-> -1, k |-> 0], eng |-> 0]
 ChildH == [g |-> 0, k |-> 0]          \* the handle "the derived reference"
 
 GuardIds == 1..MaxGuards
@@ -141,7 +148,7 @@ Init ==
   /\ G = [g \in GuardIds |-> NoGuard] /\ ng = 0 /\ cs = << >>
   /\ oval = [o \in Objs |-> InitVal(o)]
   /\ entered = {} /\ stash = [p \in Places |-> NoStash] /\ child = NoChild /\ copied = NoCopy
-  /\ acts = 0 /\ pend = 0
+  /\ acts = 0 /\ pend = 0 /\ parked = NoPark
   /\ mem = << >> /\ weak = << >> /\ ibind = [g \in GuardIds |-> << >>] /\ nd = 0
   /\ blame = {} /\ feat = {} /\ hist = << >> /\ done = FALSE
 
@@ -219,6 +226,9 @@ ChildLiveP(GG, w, ch) == (ch # NoChild /\ GG[ch.par.g].st = "active") =>
                             [t |-> "tmp", g |-> ch.par.g, k |-> ch.id] \in Range(w)
 NoResidueP(GG, m, w) == (\A g \in GuardIds : GG[g].st \notin {"open", "active"}) => (m = << >> /\ w = << >>)
 
+\* no use is in flight when its lending call is over
+NoInflightP(GG, pk) == pk # NoPark => GG[pk.h.g].st = "active"
+InvNoInflight == NoInflightP(G, parked)
 InvNoDangling == NoDanglingP(G, mem)
 InvFaithful == FaithfulP(G, ibind)
 InvChildLive == ChildLiveP(G, weak, child)
@@ -228,6 +238,7 @@ Blames(GG, m, w, ib, ch) ==
   (IF NoDanglingP(GG, m) THEN {} ELSE {"dangling"})
   \cup (IF FaithfulP(GG, ib) THEN {} ELSE {"unfaithful"})
   \cup (IF ChildLiveP(GG, w, ch) THEN {} ELSE {"childlost"})
+  \cup (IF NoInflightP(GG, parked) THEN {} ELSE {"inflight"})
 
 -----------------------------------------------------------------------------
 (* Host actions *)
@@ -261,7 +272,7 @@ HOpen(e, refs) ==
                 src |-> "#host open g" \o ToString(g) \o " e" \o ToString(e) \o " [" \o RefsText(refs) \o "]"])
        /\ blame' = blame \cup Blames(G', mem', weak', ibind, child)
   /\ pend' = -1
-  /\ UNCHANGED <<cs, oval, entered, stash, child, copied, acts, ibind, nd, done>>
+  /\ UNCHANGED <<cs, oval, entered, stash, child, copied, acts, ibind, nd, done, parked>>
 
 HEnter(g, api) ==
   /\ Idle /\ G[g].st = "open" /\ Len(cs) < 2
@@ -274,7 +285,7 @@ HEnter(g, api) ==
   /\ blame' = blame \cup Blames(G', mem, weak', ibind', child)
   /\ feat' = feat \cup (IF \E g2 \in GuardIds : g2 > g /\ G[g2].st # "none" THEN {"nonlifo"} ELSE {})
   /\ pend' = g
-  /\ UNCHANGED <<ng, oval, stash, child, copied, acts, mem, nd, done>>
+  /\ UNCHANGED <<ng, oval, stash, child, copied, acts, mem, nd, done, parked>>
 
 CloseCommon(g, GG) ==
   /\ mem' = MemAfterClose(mem, g)
@@ -285,12 +296,13 @@ HExit ==
   /\ Idle /\ cs # << >>
   /\ LET g == Top IN
        /\ \A g2 \in GuardIds : G[g2].frame = g => ~Live(g2)      \* guards created inside the thunk are gone
+       /\ ("no_wait" \in Defects \/ parked = NoPark \/ parked.h.g # g)   \* the call cannot end under a use in flight
        /\ G' = [G EXCEPT ![g].st = "closed"]
        /\ cs' = Prefix(cs, Len(cs) - 1)
        /\ CloseCommon(g, G')
        /\ hist' = Append(hist, [h |-> "exit", g |-> g, src |-> "#host exit g" \o ToString(g)])
   /\ pend' = -1
-  /\ UNCHANGED <<ng, oval, entered, stash, child, copied, acts, ibind, nd, feat, done>>
+  /\ UNCHANGED <<ng, oval, entered, stash, child, copied, acts, ibind, nd, feat, done, parked>>
 
 HDrop(g) ==
   /\ Idle /\ G[g].st = "open"
@@ -299,7 +311,7 @@ HDrop(g) ==
   /\ hist' = Append(hist, [h |-> "drop", g |-> g, src |-> "#host drop g" \o ToString(g)])
   /\ feat' = feat \cup (IF \E g2 \in GuardIds : g2 > g /\ Live(g2) THEN {"nonlifo"} ELSE {})
   /\ pend' = -1
-  /\ UNCHANGED <<ng, cs, oval, entered, stash, child, copied, acts, ibind, nd, done>>
+  /\ UNCHANGED <<ng, cs, oval, entered, stash, child, copied, acts, ibind, nd, done, parked>>
 
 \* Engine::run_with_reference(obj, bind_to, script): a complete lending call of one `&mut` loan whose body
 \* is ONE script; the host binds the global, runs the script and resets the global to void (so D3 does
@@ -331,7 +343,7 @@ HRwr(e, o, p) ==
                                 src |-> "#host run_with_reference e" \o ToString(e) \o " " \o o \o " " \o r \o " stash-" \o p,
                                 class |-> "ok", emit |-> <<ToString(oval[o])>>, acc |-> <<o \o ".get_mut">>])
   /\ acts' = acts + 1 /\ pend' = -1
-  /\ UNCHANGED <<cs, oval, entered, child, copied, nd, done>>
+  /\ UNCHANGED <<cs, oval, entered, child, copied, nd, done, parked>>
 
 -----------------------------------------------------------------------------
 (* Script steps.  A script runs on engine e whenever the host can call e.run: at top level or
@@ -412,10 +424,11 @@ Observe ==
        /\ copied' = IF docopy THEN [v |-> ValOf(h1), eng |-> e] ELSE copied
        /\ oval' = IF doset THEN [oval EXCEPT ![ObjOf(hm)] = v] ELSE oval
        /\ pend' = 0
-       /\ UNCHANGED <<G, ng, cs, entered, stash, child, acts, mem, weak, ibind, nd, blame, feat, done>>
+       /\ UNCHANGED <<G, ng, cs, entered, stash, child, acts, mem, weak, ibind, nd, blame, feat, done, parked>>
        \* the uses see the state AFTER copy and set (hist' is determined last)
-       /\ hist' = IF EmitCases THEN hist \o pre \o Flat([x \in 1..Engines |-> IF EngFree(x) THEN Uses(x)' ELSE << >>])
-                  ELSE hist
+       /\ hist' = IF EmitCases /\ parked = NoPark
+                    THEN hist \o pre \o Flat([x \in 1..Engines |-> IF EngFree(x) THEN Uses(x)' ELSE << >>])
+                  ELSE hist \o pre
 
 \* keep a valid handle somewhere ("cont" also uses it once, now)
 SStash(e, p, h) ==
@@ -432,7 +445,7 @@ SStash(e, p, h) ==
        /\ stash' = [stash EXCEPT ![p] = [h |-> h, eng |-> e, m |-> m]]
   /\ acts' = acts + 1 /\ pend' = -1
   /\ feat' = feat \cup {"stash-" \o p} \cup (IF IsChild(h) THEN {"stash-child"} ELSE {})
-  /\ UNCHANGED <<G, ng, cs, oval, entered, child, copied, mem, weak, ibind, nd, blame, done>>
+  /\ UNCHANGED <<G, ng, cs, oval, entered, child, copied, mem, weak, ibind, nd, blame, done, parked>>
 
 \* one registered function receives the SAME `&mut` handle twice: must be refused
 SPairSame(e, h) ==
@@ -440,7 +453,7 @@ SPairSame(e, h) ==
   /\ hist' = Append(hist, PairRec(e, h, h))
   /\ acts' = acts + 1 /\ pend' = -1
   /\ feat' = feat \cup {"pairsame"}
-  /\ UNCHANGED <<G, ng, cs, oval, entered, stash, child, copied, mem, weak, ibind, nd, blame, done>>
+  /\ UNCHANGED <<G, ng, cs, oval, entered, stash, child, copied, mem, weak, ibind, nd, blame, done, parked>>
 
 \* derive a child reference from a `&mut`-lent handle: (define ch (cell-inner-mut h)) / (cell-inner-ro h)
 SDerive(e, h, kind) ==
@@ -452,7 +465,7 @@ SDerive(e, h, kind) ==
   /\ weak' = Append(weak, [t |-> "tmp", g |-> h.g, k |-> nd + 1])
   /\ acts' = acts + 1 /\ pend' = -1
   /\ feat' = feat \cup {"derive-" \o kind}
-  /\ UNCHANGED <<G, ng, cs, oval, entered, stash, copied, mem, ibind, blame, done>>
+  /\ UNCHANGED <<G, ng, cs, oval, entered, stash, copied, mem, ibind, blame, done, parked>>
 
 \* the script lets go of the child: (set! ch #f); modelled when no stash holds it
 SDropChild(e) ==
@@ -462,7 +475,30 @@ SDropChild(e) ==
   /\ child' = NoChild
   /\ acts' = acts + 1 /\ pend' = -1
   /\ feat' = feat \cup {"dropchild"}
-  /\ UNCHANGED <<G, ng, cs, oval, entered, stash, copied, mem, weak, ibind, nd, blame, done>>
+  /\ UNCHANGED <<G, ng, cs, oval, entered, stash, copied, mem, weak, ibind, nd, blame, done, parked>>
+
+\* A script THREAD starts a use that blocks inside the host method (spawn-native-thread + cell-park); the
+\* host waits until the thread is inside.  Nothing else is observed while the use is in flight.
+SPark(e, h) ==
+  /\ Threads /\ Budget /\ EngFree(e) /\ parked = NoPark
+  /\ UseOK(h, "mut")
+  /\ hist' = hist \o <<[src |-> "(define th@@ (spawn-native-thread (lambda () (cell-park " \o HExpr(h) \o "))))", eng |-> e,
+                         class |-> "ok", hold |-> TRUE],
+                        [h |-> "await-parked", src |-> "#host await parked", class |-> "ok", val |-> "parked",
+                         acc |-> <<ObjOf(h) \o ".park_begin">>]>>
+  /\ parked' = [h |-> h, eng |-> e]
+  /\ acts' = acts + 1 /\ pend' = -1
+  /\ feat' = feat \cup {"thread"}
+  /\ UNCHANGED <<G, ng, cs, oval, entered, stash, child, copied, mem, weak, ibind, nd, blame, done>>
+\* the host lets the parked use finish; the script joins the thread
+SRelease ==
+  /\ Idle /\ parked # NoPark /\ EngFree(parked.eng)
+  /\ hist' = hist \o <<[h |-> "release", src |-> "#host release", hold |-> TRUE],
+                        [src |-> "(emit (thread-join! th@@))", eng |-> parked.eng, class |-> "any",
+                         acc |-> IF Valid(parked.h) THEN <<ObjOf(parked.h) \o ".park_end">> ELSE << >>]>>
+  /\ parked' = NoPark
+  /\ pend' = -1
+  /\ UNCHANGED <<G, ng, cs, oval, entered, stash, child, copied, acts, mem, weak, ibind, nd, blame, feat, done>>
 
 DirectSet(e) == {AllDirect[i] : i \in {j \in 1..Len(AllDirect) :
                     AllDirect[j].g \in entered /\ G[AllDirect[j].g].eng = e /\ AllDirect[j].k <= Len(G[AllDirect[j].g].refs)}}
@@ -472,6 +508,7 @@ Script ==
      \/ \E h \in DirectSet(e) : SPairSame(e, h)
      \/ \E h \in DirectSet(e), kind \in Modes : SDerive(e, h, kind)
      \/ SDropChild(e)
+     \/ \E h \in DirectSet(e) : SPark(e, h)
 
 Host ==
   \/ \E e \in 1..Engines, refs \in RefSeqs : HOpen(e, refs)
@@ -482,19 +519,19 @@ Host ==
 
 \* a behaviour is complete when every guard is gone
 Finish ==
-  /\ Idle /\ cs = << >> /\ ng > 0 /\ ~\E g \in GuardIds : Live(g)
+  /\ Idle /\ cs = << >> /\ ng > 0 /\ ~\E g \in GuardIds : Live(g) /\ parked = NoPark
   /\ done' = TRUE
-  /\ UNCHANGED <<G, ng, cs, oval, entered, stash, child, copied, acts, pend, mem, weak, ibind, nd, blame, feat, hist>>
+  /\ UNCHANGED <<G, ng, cs, oval, entered, stash, child, copied, acts, pend, mem, weak, ibind, nd, blame, feat, hist, parked>>
 
-Next == Host \/ Script \/ Observe \/ Finish
+Next == Host \/ Script \/ SRelease \/ Observe \/ Finish
 Spec == Init /\ [][Next]_vars
 
 -----------------------------------------------------------------------------
 (* Output *)
-FeatOrder == <<"2eng", "2refs", "nest", "relend", "nonlifo", "pairsame", "rwr",
+FeatOrder == <<"2eng", "2refs", "nest", "relend", "nonlifo", "pairsame", "rwr", "thread",
                "derive-mut", "derive-ro", "dropchild", "stash-child",
                "stash-global", "stash-closure", "stash-list", "stash-box", "stash-hash", "stash-cont", "stash-host">>
-BlameOrder == <<"dangling", "unfaithful", "childlost">>
+BlameOrder == <<"dangling", "unfaithful", "childlost", "inflight">>
 RECURSIVE Join(_, _, _)
 Join(order, set, i) == IF i > Len(order) THEN ""
                        ELSE (IF order[i] \in set THEN "," \o order[i] ELSE "") \o Join(order, set, i + 1)
@@ -503,7 +540,7 @@ Tag == "nursery|blame=" \o Join(BlameOrder, blame, 1) \o ",|feat=" \o Join(FeatO
 Emit == (EmitCases /\ done) => PrintT(<<"REPLAY", ToJson([tag |-> Tag, steps |-> hist])>>)
 
 \* design-level runs (EmitCases = FALSE) identify states that differ only in the rendered history
-DesignView == <<G, ng, cs, entered, stash, child, acts, pend, mem, weak, ibind, nd, done>>
+DesignView == <<G, ng, cs, entered, stash, child, acts, parked, pend, mem, weak, ibind, nd, done>>
 
 TypeOK == /\ ng \in 0..MaxGuards /\ acts \in 0..MaxActs /\ Len(cs) <= 2
           /\ \A g \in GuardIds : G[g].st \in {"none", "open", "active", "closed"}
